@@ -48,6 +48,22 @@ Proof. intros. apply allowed_levels_all. assumption. Qed.
 Theorem C36_valid_untouched : forall items, valid_tree items -> fix_indents items [] = [].
 Proof. intros. rewrite fix_indents_is_ref. apply (fix_ref_valid_noop items 0 (-1)); [assumption|reflexivity]. Qed.
 
+(* In an originally valid tree, a page that is not a descendant of a removed page keeps its level.
+   (under_removed marks the descendants: it tracks the smallest level of a removed page whose subtree is
+   still open; a page is below a removed page exactly when that level is smaller than its own.) *)
+Theorem C36_outside_removed_subtrees_untouched : forall items deleted it,
+  valid_tree items -> NoDup (map fst items) ->
+  In (it, false) (under_removed None items deleted) ->
+  lookup_fix (fst it) (fix_indents items deleted) = None.
+Proof.
+  intros items deleted it Hv Hnd Hin. rewrite fix_indents_is_ref.
+  eapply (fix_ref_not_under items deleted 0 (-1) None); [exact Hv|exact Hnd|cbn; apply Z.le_refl|exact Hin].
+Qed.
+
+Example C36_under_removed_example :
+  map snd (under_removed None [(1, 0); (2, 1); (3, 2); (4, 1); (5, 0)] [2]) = [false; false; true; false; false].
+Proof. vm_compute. reflexivity. Qed.
+
 (* Non-vacuity: the docstring's example ["A0","B1","C0","D1"] minus C gives [("D",0)]. *)
 Example C36_nonvacuous :
   let items := [(1, 0); (2, 1); (3, 0); (4, 1)] in
